@@ -4,7 +4,7 @@ from props.routers import *
 from props.c05 import replay_text
 
 THEOREMS = ['c11_every_open_answered', 'c11_register_frames_are_the_headers', 'c11_open_cases', 'c11_topic_stays_usable', 'c11_client_reports']
-ROUTER_THEOREMS = ['c11_reqrep_router_total', 'c11_pubsub_router_total', 'c11_reqrep_registration_never_dropped', 'c11_reqrep_every_queued_socket_placed']
+ROUTER_THEOREMS = ['c11_reqrep_router_total', 'c11_pubsub_router_total', 'c11_reqrep_registration_never_dropped', 'c11_reqrep_every_queued_socket_placed', 'c11_pubsub_subscriber_registration_never_dropped']
 
 SRV_RULE = ('srv: each case: in-process server on loopback QUIC; one raw peer (trusted certificate) opens 6-14 streams whose first frame is a register frame of one of the four roles (3 in 4) '
             'or a Message / BatchMessage / Error / Ok frame, on a pool of 3 valid names (3 in 4) and 2-3 invalid ones (too short, too long, space, slash, non-ASCII, empty, dot, reserved '
